@@ -32,16 +32,24 @@ CONSTANTS Writers,      \* set of writer names
           MaxSleeps,    \* bound on the reaper's sleeps
           WithReaper,   \* BOOLEAN
           MaxCrashes,   \* C10: number of crashes allowed
+          Pre,          \* C10: [Names -> "absent" | "complete"], the directory before the phase starts
+          SowFiles,     \* C10: names of the settings / function / batch files
+          DataFiles,    \* C10: names of files holding previously harvested data, which must survive
+          WithRecovery, \* C10: explore the documented recovery after the crash
           Record
 
-VARIABLES fs, pc, alive, rpc, ri, rgot, sleeps, npoll, pollbad, crashes, hist
+VARIABLES fs, pc, alive, rpc, ri, rgot, sleeps, npoll, pollbad, crashes, reaped, hist
 
-vars == <<fs, pc, alive, rpc, ri, rgot, sleeps, npoll, pollbad, crashes, hist>>
+vars == <<fs, pc, alive, rpc, ri, rgot, sleeps, npoll, pollbad, crashes, reaped, hist>>
 
 Absent == [ex |-> FALSE, len |-> 0, full |-> 0, src |-> 0]
 ResName(i) == "res" \o ToString(i)
 
-Init == /\ fs = [n \in Names |-> Absent]
+(* batch whose results a name is supposed to hold (0: not a result file) *)
+SrcOf(n) == IF \E i \in 1..NB : n = ResName(i) THEN CHOOSE i \in 1..NB : n = ResName(i) ELSE 0
+
+Init == /\ fs = [n \in Names |-> IF Pre[n] = "complete" THEN [ex |-> TRUE, len |-> 1, full |-> 1, src |-> SrcOf(n)] ELSE Absent]
+        /\ reaped = "no"
         /\ pc = [w \in Writers |-> 1]
         /\ alive = [w \in Writers |-> TRUE]
         /\ rpc = IF WithReaper THEN "exists" ELSE "off"
@@ -56,10 +64,11 @@ Complete(f) == f.ex /\ f.full > 0 /\ f.len = f.full
 
 (* effect of one recorded operation on the file system *)
 Apply(w, op) ==
-    CASE op.k = "creat"  -> [fs EXCEPT ![op.p] = [ex |-> TRUE, len |-> 0, full |-> FullOf[w][op.p], src |-> BatchOf[w]]]
+    CASE op.k = "creat"  -> [fs EXCEPT ![op.p] = [ex |-> TRUE, len |-> 0, full |-> FullOf[w][op.p],
+                                                  src |-> IF op.s # 0 THEN op.s ELSE BatchOf[w]]]
       [] op.k = "write"  -> IF fs[op.p].ex THEN [fs EXCEPT ![op.p].len = Min2(@ + 1, fs[op.p].full)] ELSE fs
       [] op.k = "rename" -> IF fs[op.p].ex THEN [fs EXCEPT ![op.q] = fs[op.p], ![op.p] = Absent] ELSE fs
-      [] op.k = "unlink" -> [fs EXCEPT ![op.p] = Absent]
+      [] op.k = "unlink" -> IF op.p \in Names THEN [fs EXCEPT ![op.p] = Absent] ELSE fs
       [] OTHER           -> fs                                   \* close, stat, list, read: no effect
 
 WStep(w) ==
@@ -67,7 +76,7 @@ WStep(w) ==
     /\ fs' = Apply(w, Prog[w][pc[w]])
     /\ pc' = [pc EXCEPT ![w] = @ + 1]
     /\ hist' = Log(w, Prog[w][pc[w]].k)
-    /\ UNCHANGED <<alive, rpc, ri, rgot, sleeps, npoll, pollbad, crashes>>
+    /\ UNCHANGED <<alive, rpc, ri, rgot, sleeps, npoll, pollbad, crashes, reaped>>
 
 (* C10: the process is killed before its next operation *)
 Crash(w) ==
@@ -75,7 +84,7 @@ Crash(w) ==
     /\ alive' = [alive EXCEPT ![w] = FALSE]
     /\ crashes' = crashes + 1
     /\ hist' = Log(w, "crash")
-    /\ UNCHANGED <<fs, pc, rpc, ri, rgot, sleeps, npoll, pollbad>>
+    /\ UNCHANGED <<fs, pc, rpc, ri, rgot, sleeps, npoll, pollbad, reaped>>
 
 WritersDone == \A w \in Writers : ~alive[w] \/ pc[w] > Len(Prog[w])
 
@@ -86,19 +95,19 @@ RExists ==
           THEN rpc' = "isfile"
           ELSE sleeps < MaxSleeps /\ ~WritersDone /\ rpc' = "sleep"     \* will time.sleep(0.2) and look again
     /\ hist' = Log("reaper", "stat")
-    /\ UNCHANGED <<fs, pc, alive, ri, rgot, sleeps, npoll, pollbad, crashes>>
+    /\ UNCHANGED <<fs, pc, alive, ri, rgot, sleeps, npoll, pollbad, crashes, reaped>>
 
 RSleep ==
     /\ rpc = "sleep"
     /\ rpc' = "exists" /\ sleeps' = sleeps + 1
     /\ hist' = Log("reaper", "sleep")
-    /\ UNCHANGED <<fs, pc, alive, ri, rgot, npoll, pollbad, crashes>>
+    /\ UNCHANGED <<fs, pc, alive, ri, rgot, npoll, pollbad, crashes, reaped>>
 
 RIsFile ==
     /\ rpc = "isfile"
     /\ rpc' = IF fs[ResName(ri)].ex THEN "open" ELSE "failed"
     /\ hist' = Log("reaper", "stat")
-    /\ UNCHANGED <<fs, pc, alive, ri, rgot, sleeps, npoll, pollbad, crashes>>
+    /\ UNCHANGED <<fs, pc, alive, ri, rgot, sleeps, npoll, pollbad, crashes, reaped>>
 
 ROpen ==
     /\ rpc = "open"
@@ -110,7 +119,7 @@ ROpen ==
            ELSE /\ rpc' = "failed"                              \* ENOENT, EOFError, UnpicklingError ...
                 /\ UNCHANGED <<rgot, ri>>
     /\ hist' = Log("reaper", "read")
-    /\ UNCHANGED <<fs, pc, alive, sleeps, npoll, pollbad, crashes>>
+    /\ UNCHANGED <<fs, pc, alive, sleeps, npoll, pollbad, crashes, reaped>>
 
 Reaper == RExists \/ RSleep \/ RIsFile \/ ROpen
 
@@ -120,12 +129,52 @@ Poll ==
     /\ npoll' = npoll + 1
     /\ pollbad' = (pollbad \/ \E n \in Counted : fs[n].ex /\ ~Complete(fs[n]))
     /\ hist' = Log("poller", "list")
-    /\ UNCHANGED <<fs, pc, alive, rpc, ri, rgot, sleeps, crashes>>
+    /\ UNCHANGED <<fs, pc, alive, rpc, ri, rgot, sleeps, crashes, reaped>>
 
 WStepAny == \E w \in Writers : WStep(w)
 CrashAny == \E w \in Writers : Crash(w)
 
-Next == WStepAny \/ CrashAny \/ Reaper \/ Poll
+-----------------------------------------------------------------------------
+(* C10: the documented recovery, started by a fresh process once every writer is gone:
+   re-sow if a sown file is incomplete, discard unreadable results (check_bad), grow the missing
+   batches, reap.  Each step publishes one file atomically (that is what the crash analysis of the
+   recorded programs establishes), so a second crash simply stops the recovery between two steps. *)
+Recovering == WithRecovery /\ WritersDone /\ reaped = "no"
+SowComplete == \A f \in SowFiles : Complete(fs[f])
+
+RecSow(f) ==
+    /\ Recovering /\ f \in SowFiles /\ ~Complete(fs[f])
+    /\ fs' = [fs EXCEPT ![f] = [ex |-> TRUE, len |-> 1, full |-> 1, src |-> 0]]
+    /\ hist' = Log("recover", "resow")
+    /\ UNCHANGED <<pc, alive, rpc, ri, rgot, sleeps, npoll, pollbad, crashes, reaped>>
+
+RecCheckBad(i) ==
+    /\ Recovering /\ SowComplete /\ fs[ResName(i)].ex /\ ~Complete(fs[ResName(i)])
+    /\ fs' = [fs EXCEPT ![ResName(i)] = Absent]
+    /\ hist' = Log("recover", "check_bad")
+    /\ UNCHANGED <<pc, alive, rpc, ri, rgot, sleeps, npoll, pollbad, crashes, reaped>>
+
+RecGrow(i) ==
+    /\ Recovering /\ SowComplete /\ ~fs[ResName(i)].ex
+    /\ fs' = [fs EXCEPT ![ResName(i)] = [ex |-> TRUE, len |-> 1, full |-> 1, src |-> i]]
+    /\ hist' = Log("recover", "grow")
+    /\ UNCHANGED <<pc, alive, rpc, ri, rgot, sleeps, npoll, pollbad, crashes, reaped>>
+
+(* what a reap attempted right now would do *)
+ReapNow == IF ~Complete(fs["info"]) THEN "error"
+           ELSE IF \E i \in 1..NB : ~fs[ResName(i)].ex THEN "refused"
+           ELSE IF \E i \in 1..NB : ~Complete(fs[ResName(i)]) THEN "error"
+           ELSE IF \A i \in 1..NB : fs[ResName(i)].src = i THEN "exact" ELSE "wrong"
+
+RecReap ==
+    /\ Recovering /\ SowComplete /\ \A i \in 1..NB : Complete(fs[ResName(i)])
+    /\ reaped' = ReapNow
+    /\ hist' = Log("recover", "reap")
+    /\ UNCHANGED <<fs, pc, alive, rpc, ri, rgot, sleeps, npoll, pollbad, crashes>>
+
+Recover == (\E f \in SowFiles : RecSow(f)) \/ (\E i \in 1..NB : RecCheckBad(i) \/ RecGrow(i)) \/ RecReap
+
+Next == WStepAny \/ CrashAny \/ Reaper \/ Poll \/ Recover
 
 Spec == Init /\ [][Next]_vars
 FairSpec == Spec /\ WF_vars(WStepAny) /\ WF_vars(Reaper)
@@ -141,6 +190,11 @@ ReaperTerminates == (MaxCrashes = 0 /\ WithReaper) => <>(rpc \in {"done", "faile
 (* C10: what a later process finds after crashes: a result name never holds a partial file *)
 NoPartialResultVisible == \A i \in 1..NB : fs[ResName(i)].ex => Complete(fs[ResName(i)])
 
+(* C10 *)
+NoSilentCorruption == ReapNow # "wrong" /\ reaped # "wrong"
+RecoveryReachesExact == reaped \in {"no", "exact"}
+HarvestedDataSurvives == \A d \in DataFiles : Pre[d] = "complete" => Complete(fs[d])
+
 TypeOK == rpc \in {"off", "exists", "sleep", "isfile", "open", "done", "failed"}
 
 Terminal == (rpc \in {"off", "done", "failed"} \/ (rpc = "exists" /\ WritersDone /\ ~fs[ResName(ri)].ex))
@@ -148,6 +202,14 @@ Terminal == (rpc \in {"off", "done", "failed"} \/ (rpc = "exists" /\ WritersDone
 EmitCase ==
     (Record /\ Terminal) =>
         PrintT(<<"CASE", ToJson([hist |-> hist, rpc |-> rpc, rgot |-> rgot, pollbad |-> pollbad,
+                                 crashed |-> {w \in Writers : ~alive[w]},
+                                 pcs |-> pc,
+                                 files |-> [n \in Names |-> IF ~fs[n].ex THEN "absent"
+                                                             ELSE IF Complete(fs[n]) THEN "complete" ELSE "partial"]])>>)
+(* C10: the directory a later process finds right after a crash, for conformance with the real kill *)
+EmitCrash ==
+    (Record /\ hist # <<>> /\ hist[Len(hist)][2] = "crash") =>
+        PrintT(<<"CASE", ToJson([pcs |-> pc, reapnow |-> ReapNow,
                                  files |-> [n \in Names |-> IF ~fs[n].ex THEN "absent"
                                                              ELSE IF Complete(fs[n]) THEN "complete" ELSE "partial"]])>>)
 =============================================================================
